@@ -1,6 +1,13 @@
 package props
 
-import "verifharness/internal/vf"
+import (
+	"fmt"
+	"time"
+
+	"github.com/grailbio/bigslice"
+	"github.com/grailbio/bigslice/exec"
+	"verifharness/internal/vf"
+)
 
 // runC20e2e: for failure-free runs on both executors, Counter.Value(result.Scope()) must equal
 // the increments the user functions performed (counted independently by the recorder). The
@@ -24,4 +31,192 @@ func runC20e2e(r *vf.Runner) {
 		}
 		r.Case(c, func(t *vf.T) { runC04case(t, pool, c) })
 	}
+}
+
+// c20chain: results that feed later Funcs. A result's task graph then contains the tasks of the
+// results it was derived from, and Result.Scope() merges task scopes that an earlier
+// Result.Scope() has already merged elsewhere.
+type c20chain struct {
+	Conf  sessConf  `json:"conf"`
+	Base  Spec      `json:"base"`
+	Steps []c20link `json:"steps"`
+}
+
+type c20link struct {
+	R, R2 int  `json:"r"`
+	Spec  Spec `json:"spec"`
+	// ReadFirst: read the scopes of all earlier results before this step runs (the order of
+	// reads decides which scope is merged into an empty one)
+	ReadFirst bool `json:"read_first,omitempty"`
+}
+
+func runC20chain(t *vf.T, c c20chain) {
+	ls := startSession(c.Conf)
+	defer ls.Close()
+	run := fmt.Sprintf("c20c-%d", t.Index())
+	type node struct {
+		res  *exec.Result
+		want *rel
+		own  [nCounters]int64
+		anc  map[int]bool // indices of the results whose tasks are in this result's graph (itself included)
+	}
+	var nodes []*node
+	expect := func(n *node) (v [nCounters]int64) {
+		for i := range n.anc {
+			for k := range v {
+				v[k] += nodes[i].own[k]
+			}
+		}
+		return v
+	}
+	readAll := func(when string) bool {
+		for i, n := range nodes {
+			if got, want := counterValues(n.res), expect(n); got != want {
+				t.Violate("chain counters-differ exec="+c.Conf.Kind+" when="+when, fmt.Sprintf("result %d of the chain reports %v; the user functions of its task graph performed %v (own %v, graph %v) | base %s", i, got, want, n.own, n.anc, specString(&c.Base)))
+				return false
+			}
+			t.Count("chain_scope_reads", 1)
+		}
+		return true
+	}
+	exec1 := func(sp Spec, args [2]bigslice.Slice, want *rel, anc map[int]bool) bool {
+		o := runSpec(ls, sp, args, true, 120*time.Second)
+		pr := probeFor(sp.Run)
+		var own [nCounters]int64
+		pr.mu.Lock()
+		for k, v := range pr.incrs {
+			own[k] = *v
+		}
+		pr.mu.Unlock()
+		probes.Delete(sp.Run)
+		switch {
+		case o.TimedOut:
+			t.Inconclusive("watchdog in chain run")
+			return false
+		case o.Panic != nil || o.RunErr != nil || o.ScanErr != nil:
+			t.Violate("chain run-failed exec="+c.Conf.Kind, fmt.Sprintf("run: %v scan: %v panic: %v | %s", o.RunErr, o.ScanErr, o.Panic, specString(&sp)))
+			return false
+		}
+		if d := compareResult(o.Rows, want); d != "" {
+			t.Violate("chain rows-differ exec="+c.Conf.Kind, d+" | "+specString(&sp))
+			return false
+		}
+		anc[len(nodes)] = true
+		nodes = append(nodes, &node{res: o.Res, want: want, own: own, anc: anc})
+		return true
+	}
+	base := c.Base
+	base.Run = run + "-base"
+	want0, _, err := evalSpec(&base, nil)
+	if err != nil || want0.Weak || len(want0.Kinds) == 0 {
+		return
+	}
+	if !exec1(base, [2]bigslice.Slice{}, want0, map[int]bool{}) {
+		return
+	}
+	nonzero := 0
+	for si, st := range c.Steps {
+		if st.R >= len(nodes) || st.R2 >= len(nodes) {
+			continue
+		}
+		if st.ReadFirst && !readAll("before-derive") {
+			return
+		}
+		sp := st.Spec
+		sp.Run = fmt.Sprintf("%s-s%d", run, si)
+		a, b := nodes[st.R], nodes[st.R2]
+		want, _, err := evalSpec(&sp, []*rel{a.want, b.want})
+		if err != nil || want.Weak || len(want.Kinds) == 0 {
+			continue
+		}
+		// which arguments does the program's result actually depend on
+		anc := map[int]bool{}
+		reach := make([]bool, len(sp.Nodes))
+		reach[len(sp.Nodes)-1] = true
+		for ni := len(sp.Nodes) - 1; ni >= 0; ni-- {
+			if !reach[ni] {
+				continue
+			}
+			for _, in := range sp.Nodes[ni].In {
+				reach[in] = true
+			}
+			if sp.Nodes[ni].Op == "arg" {
+				for i := range []*node{a, b}[sp.Nodes[ni].Arg].anc {
+					anc[i] = true
+				}
+			}
+		}
+		if !exec1(sp, [2]bigslice.Slice{a.res, b.res}, want, anc) {
+			return
+		}
+		if !readAll("after-derive") {
+			return
+		}
+		if nodes[len(nodes)-1].own != ([nCounters]int64{}) {
+			nonzero++
+		}
+	}
+	if !readAll("end") {
+		return
+	}
+	t.Count("chains", 1)
+	if len(nodes) >= 2 && nonzero > 0 && nodes[0].own != ([nCounters]int64{}) {
+		t.Nontrivial("")
+	}
+}
+
+func runC20chains(r *vf.Runner) {
+	rnd := r.Rand("chains")
+	n := 24
+	if !r.Quick() {
+		n = 400
+	}
+	ops := []string{"map", "map", "filter", "flatmap", "fold", "reduce", "cogroup", "reshuffle", "repartition", "reshard", "prefixed", "mapkv"}
+	for i := 0; i < n; i++ {
+		conf := localP4
+		if i%2 == 1 {
+			conf = bm2
+		}
+		fr := rnd.Fork()
+		r.CaseLazy(func() interface{} { return genC20chain(fr, conf, ops) }, func(t *vf.T, c interface{}) { runC20chain(t, c.(c20chain)) })
+	}
+}
+
+func genC20chain(rnd *vf.Rand, conf sessConf, ops []string) c20chain {
+	c := c20chain{Conf: conf}
+	baseOpts := genOpts{MaxOps: 3, Sources: []string{"const", "readerfunc"}, Ops: ops, NoWeakHead: true, NoScan: true, MaxRows: 200, Ctx: true}
+	for tries := 0; tries < 20; tries++ {
+		c.Base = genSpec(rnd.Fork(), baseOpts)
+		if w, _, err := evalSpec(&c.Base, nil); err == nil && !w.Weak && len(w.Kinds) > 0 && hasCtx(&c.Base) {
+			break
+		}
+	}
+	want0, _, err := evalSpec(&c.Base, nil)
+	if err != nil {
+		return c
+	}
+	rels := []*rel{want0}
+	for i, n := 0, 1+rnd.Intn(3); i < n; i++ {
+		a, b := rnd.Intn(len(rels)), rnd.Intn(len(rels))
+		o := genOpts{MaxOps: 3, Sources: []string{"arg"}, Ops: ops, ArgRels: []*rel{rels[a], rels[b]}, NoWeakHead: true, NoScan: true, Ctx: true}
+		for tries := 0; tries < 10; tries++ {
+			sp := genSpec(rnd.Fork(), o)
+			w, _, err := evalSpec(&sp, []*rel{rels[a], rels[b]})
+			if err == nil && len(sp.Nodes) >= 2 && len(w.Kinds) > 0 && !w.Weak {
+				c.Steps = append(c.Steps, c20link{R: a, R2: b, Spec: sp, ReadFirst: rnd.Chance(0.6)})
+				rels = append(rels, w)
+				break
+			}
+		}
+	}
+	return c
+}
+
+func hasCtx(sp *Spec) bool {
+	for _, n := range sp.Nodes {
+		if n.Ctx {
+			return true
+		}
+	}
+	return false
 }
